@@ -538,12 +538,24 @@ var giStructs = []struct {
 	{"", reflect.TypeOf(ZvBase{})}, {"", reflect.TypeOf(ZvDeep{})}, {"", reflect.TypeOf(ZvBase2{})},
 	{"zvnode", reflect.TypeOf(ZvNode{})}, {"zvwrap", reflect.TypeOf(ZvWrap{})}, {"zvhost", reflect.TypeOf(ZvHost{})},
 	{"zvpair", reflect.TypeOf(ZvPair{})}, {"zvemb", reflect.TypeOf(ZvEmb{})},
+	{"zvtwin", reflect.TypeOf(ZvTwin{})}, {"zvcrew", reflect.TypeOf(ZvCrew{})},
 	{"", reflect.TypeOf(ZvL4{})}, {"", reflect.TypeOf(ZvL3{})}, {"", reflect.TypeOf(ZvL2{})}, {"zvtower", reflect.TypeOf(ZvTower{})},
 	{"persondemo", reflect.TypeOf(zygo.Person{})}, {"eventdemo", reflect.TypeOf(zygo.Event{})},
 	{"", reflect.TypeOf(zygo.Wings{})}, {"plane", reflect.TypeOf(zygo.Plane{})}, {"snoopy", reflect.TypeOf(zygo.Snoopy{})},
 	{"hornet", reflect.TypeOf(zygo.Hornet{})}, {"hellcat", reflect.TypeOf(zygo.Hellcat{})},
 	{"weather", reflect.TypeOf(zygo.Weather{})}, {"setOfPlanes", reflect.TypeOf(zygo.SetOfPlanes{})},
 	{"nestouter", reflect.TypeOf(zygo.NestOuter{})}, {"nestinner", reflect.TypeOf(zygo.NestInner{})},
+}
+
+// the second names of the types registered under two names (the first one is giStructs.reg)
+var giSecondNames = map[string]string{"ZvTwin": "zvtwin", "NestOuter": "nestouter", "NestInner": "nestinner"}
+
+// giFirstName maps a record type name onto the first registered name of its type.
+func giFirstName(tn string) string {
+	if f, ok := giSecondNames[tn]; ok {
+		return f
+	}
+	return tn
 }
 
 func giRegOf(t reflect.Type) string {
@@ -556,6 +568,7 @@ func giRegOf(t reflect.Type) string {
 }
 
 func giTypeOfReg(reg string) reflect.Type {
+	reg = giFirstName(reg)
 	for _, s := range giStructs {
 		if s.reg == reg {
 			return s.typ
@@ -640,10 +653,24 @@ func giTypesCase(env *zygo.Zlisp) map[string]any {
 		}
 		reg[s.reg] = name
 	}
+	canon := map[string]any{}
+	for _, s := range giStructs {
+		canon[s.typ.Name()] = s.reg
+	}
+	for second, first := range giSecondNames {
+		name := "?"
+		if rt := zygo.GoStructRegistry.Lookup(second); rt != nil {
+			if v, err := rt.Factory(env, nil); err == nil && v != nil && reflect.TypeOf(v).Kind() == reflect.Ptr {
+				name = reflect.TypeOf(v).Elem().Name()
+			}
+		}
+		reg[second] = name
+		_ = first
+	}
 	for _, v := range impl {
 		sort.Strings(v)
 	}
-	return map[string]any{"id": "types", "kind": "types", "structs": structs, "reg": reg, "impl": impl, "pkg": pkg}
+	return map[string]any{"id": "types", "kind": "types", "structs": structs, "reg": reg, "impl": impl, "pkg": pkg, "canon": canon}
 }
 
 // ---------------------------------------------------------------- interpreter and one conversion
@@ -661,7 +688,7 @@ func newGiEnv() *zygo.Zlisp {
 
 type giCase struct {
 	ID   string `json:"id"`
-	Kind string `json:"kind"` // fwd | echo | echo0
+	Kind string `json:"kind"` // fwd | echo | echo0 | hist
 	Via  string `json:"via,omitempty"`
 	Root int    `json:"root"`
 	Sfx  string `json:"sfx"`
@@ -671,9 +698,16 @@ type giCase struct {
 	Try  int    `json:"tries"`
 	Res  []any  `json:"res"`
 	Note string `json:"note,omitempty"`
+	// kind hist: steps ["togo"] | ["self"] | ["set", node, key, value] with their script texts; Res[i] belongs to step i
+	Steps []any    `json:"steps,omitempty"`
+	Stext []string `json:"stext,omitempty"`
 }
 
 func giEchoOf(tn string) string {
+	if tn == "nestouter" || tn == "NestOuter" {
+		return "EchoNest"
+	}
+	tn = giFirstName(tn)
 	for _, t := range giTypes {
 		if t.name == tn {
 			return t.echo
@@ -745,8 +779,72 @@ func giAttempt(env *zygo.Zlisp, c *giCase) any {
 	return []any{"badkind"}
 }
 
+// giHistory runs the steps of a history on one record object.
+func giHistory(env *zygo.Zlisp, c *giCase) {
+	c.Res = nil
+	o := evalSafe(env, c.Text)
+	if o.Kind != "val" {
+		c.Res = append(c.Res, []any{"builderr", trunc(o.Err, 200)})
+		return
+	}
+	root := fmt.Sprintf("n%d%s", c.Root, c.Sfx)
+	for i, st := range c.Steps {
+		op, _ := st.([]any)[0].(string)
+		giLastArg = nil
+		o := evalSafe(env, c.Stext[i])
+		switch op {
+		case "togo":
+			switch o.Kind {
+			case "val":
+				x, ok := env.FindObject(root)
+				h, isH := x.(*zygo.SexpHash)
+				if !ok || !isH || !h.ShadowSet || h.GoShadowStruct == nil {
+					c.Res = append(c.Res, []any{"noshadow"})
+				} else {
+					r, objs := giDump(h.GoShadowStruct)
+					c.Res = append(c.Res, []any{"ok", r, objs})
+				}
+			case "err":
+				c.Res = append(c.Res, []any{"err"})
+			default:
+				c.Res = append(c.Res, []any{o.Kind, trunc(o.Err, 200)})
+			}
+		case "self":
+			switch o.Kind {
+			case "val":
+				arr, isA := o.Val.(*zygo.SexpArray)
+				if !isA || len(arr.Val) != 1 || giLastArg == nil {
+					c.Res = append(c.Res, []any{"badresult"})
+				} else {
+					r, objs := giDump(giLastArg)
+					c.Res = append(c.Res, []any{"ok", r, objs, giProj(arr.Val[0], 0)})
+				}
+			case "err":
+				if giLastArg == nil {
+					c.Res = append(c.Res, []any{"argerr"})
+				} else {
+					r, objs := giDump(giLastArg)
+					c.Res = append(c.Res, []any{"reterr", r, objs})
+				}
+			default:
+				c.Res = append(c.Res, []any{o.Kind, trunc(o.Err, 200)})
+			}
+		default:
+			if o.Kind == "val" {
+				c.Res = append(c.Res, []any{"set"})
+			} else {
+				c.Res = append(c.Res, []any{"seterr", trunc(o.Err, 200)})
+			}
+		}
+	}
+}
+
 // giRun fills c.Res: the distinct outcomes over c.Try attempts.
 func giRun(env *zygo.Zlisp, c *giCase) {
+	if c.Kind == "hist" {
+		giHistory(env, c)
+		return
+	}
 	if c.Cyc {
 		c.Res = []any{giRunChild(c)}
 		return
@@ -942,6 +1040,17 @@ func (b *giGb) small(reg string, k int) giVal {
 			return b.rec("zvtower", giFld("d3", giInt(7)), giFld("d1", giInt(-1)), giFld("c1", giStr("x")))
 		}
 		return b.rec("zvtower", giFld("d2", giInt(42)), giFld("ds", giStr("only")))
+	case "zvtwin":
+		switch k % 3 {
+		case 0:
+			return b.rec("zvtwin", giFld("n", giStr("ann")), giFld("k", giInt(1200)))
+		case 1:
+			// the same Go type under its second registered name
+			return b.rec("ZvTwin", giFld("n", giStr("bob")))
+		}
+		return b.rec("zvtwin", giFld("k", giInt(30)))
+	case "zvcrew":
+		return b.rec("zvcrew", giFld("call", giStr("z1")), giFld("cap", b.small("zvtwin", 0)))
 	case "zvhost":
 		return b.rec("zvhost", giFld("n", giInt(1)))
 	case "hellcat":
@@ -1148,7 +1257,7 @@ func (b *giGb) wrong(t reflect.Type) []func() giVal {
 }
 
 // the registered types whose records are generated as roots
-var giRootTypes = []string{"zvleaf", "zvodd", "zvbox", "zvnode", "zvwrap", "zvpair", "zvemb", "zvtower", "zvhost",
+var giRootTypes = []string{"zvleaf", "zvodd", "zvbox", "zvnode", "zvwrap", "zvpair", "zvemb", "zvtower", "zvtwin", "zvcrew", "zvhost",
 	"persondemo", "eventdemo", "plane", "snoopy", "hornet", "hellcat", "weather", "setOfPlanes", "nestouter", "nestinner"}
 
 // reference positions of a root type: how to wrap a child record so that the root refers to it
@@ -1201,6 +1310,12 @@ var giPositions = []giPos{
 	{"p.b", "zvpair", giAnyTypes, "iface", giOne("b")},
 	{"t.dp", "zvtower", []string{"zvleaf"}, "ptr", giOne("dp")},
 	{"t.ref", "zvtower", giAnyTypes, "iface", giOne("ref")},
+	{"crew.cap", "zvcrew", []string{"zvtwin"}, "ptr", giOne("cap")},
+	{"crew.rel", "zvcrew", []string{"zvtwin", "zvleaf", "zvcrew", "zvnode"}, "iface", giOne("rel")},
+	{"crew.nest", "zvcrew", []string{"nestouter"}, "ptr", giOne("nest")},
+	{"crew.rel.cap", "zvcrew", []string{"zvtwin"}, "ptr", func(b *giGb, c giVal) []giField {
+		return []giField{giFld("rel", b.rec("zvcrew", giFld("call", giStr("inner")), giFld("cap", c)))}
+	}},
 	{"chld", "snoopy", giFlyers, "iface", giOne("chld")},
 	{"friends0", "snoopy", giFlyers, "iface", func(b *giGb, c giVal) []giField { return []giField{giFld("friends", giArr(c))} }},
 	{"carrying1", "snoopy", giFlyers, "iface", func(b *giGb, c giVal) []giField {
@@ -1419,6 +1534,8 @@ func (gg *giGen) systematic(thorough bool) {
 		l = b.small("zvleaf", 0)
 		gg.add("s4", b.graph(b.rec("zvnode", giFld("vals", giArr(l, l)), giFld("val", l))), "value copies")
 	}
+	// E6: histories on one record object (kind hist)
+	gg.histories()
 	// E5: records that reach themselves
 	{
 		type cyc struct {
@@ -1457,6 +1574,148 @@ func (gg *giGen) systematic(thorough bool) {
 		for _, c := range cs {
 			b := newGiGb()
 			gg.add("c1", b.graph(c.mk(b)), "cycle: "+c.name)
+		}
+	}
+}
+
+// addHist registers a history on the root record of g.
+func (gg *giGen) addHist(g *giGraph, steps []giStep, note string) {
+	gg.ng++
+	gg.n++
+	sfx := fmt.Sprintf("_%d", gg.ng)
+	root := fmt.Sprintf("n%d%s", g.Root, sfx)
+	c := &giCase{ID: fmt.Sprintf("h1-%d-hist", gg.n), Kind: "hist", Root: g.Root, Sfx: sfx, G: g.tagged(),
+		Text: g.text(sfx), Try: 1, Note: note}
+	for _, st := range steps {
+		switch st.op {
+		case "togo":
+			c.Steps = append(c.Steps, []any{"togo"})
+			c.Stext = append(c.Stext, "(togo "+root+")\n")
+		case "self":
+			c.Steps = append(c.Steps, []any{"self"})
+			c.Stext = append(c.Stext, "(_method "+root+" Self:)\n")
+		default:
+			c.Steps = append(c.Steps, []any{"set", st.node, st.key, st.v.tagged()})
+			c.Stext = append(c.Stext, fmt.Sprintf("(hset n%d%s %s: %s)\n", st.node, sfx, st.key, st.v.text(sfx)))
+		}
+	}
+	gg.cases = append(gg.cases, c)
+}
+
+type giStep struct {
+	op   string // togo | self | set
+	node int
+	key  string
+	v    giVal
+}
+
+// a field whose values need no other record (so that a repair is one hset)
+func giPlainType(t reflect.Type) bool {
+	switch t.Kind() {
+	case reflect.Struct:
+		return t == giTimeType
+	case reflect.Ptr, reflect.Interface:
+		return false
+	case reflect.Slice:
+		return t.Elem().Kind() == reflect.Uint8 || giPlainType(t.Elem())
+	case reflect.Map:
+		return giPlainType(t.Elem())
+	case reflect.Uint, reflect.Uint8:
+		return false // unsupported kind on some trees: every value may be refused
+	}
+	return true
+}
+
+// a valid, non-zero value of a plain type
+func (b *giGb) good(t reflect.Type, alt int) giVal {
+	c := b.candidates(t, 2)
+	switch t.Kind() {
+	case reflect.Bool:
+		return giBool(true)
+	case reflect.Int, reflect.Int64, reflect.Int32, reflect.Int8:
+		return giInt(int64(5 + alt))
+	case reflect.String:
+		return giStr([]string{"x", "hello world"}[alt%2])
+	case reflect.Float64, reflect.Float32:
+		return giFlt([]string{"1.5", "-0.25"}[alt%2])
+	}
+	return c[len(c)-1-alt%2]()
+}
+
+// histories: a conversion that fails, further conversions of the same object, the repair of the
+// field, and conversions again -- through (togo r) and with the record as receiver of a Go method
+func (gg *giGen) histories() {
+	T, S := giStep{op: "togo"}, giStep{op: "self"}
+	for _, reg := range []string{"zvleaf", "zvodd", "zvbox", "zvnode", "zvpair", "zvtower", "zvcrew"} {
+		flat := giFlatten(giTypeOfReg(reg))
+		var plain []giFlat
+		for _, f := range flat {
+			if giPlainType(f.typ) {
+				plain = append(plain, f)
+			}
+		}
+		for fi, f := range plain {
+			if fi >= 5 {
+				break
+			}
+			nw := len(newGiGb().wrong(f.typ))
+			for wi := 0; wi < nw && wi < 2; wi++ {
+				for variant := 0; variant < 2; variant++ {
+					b := newGiGb()
+					w := b.wrong(f.typ)[wi]()
+					if w.K == "ref" || (w.K == "arr" && len(w.Xs) > 0 && w.Xs[0].K == "ref") {
+						continue
+					}
+					fs := []giField{}
+					// two other fields with valid, non-zero values around the bad one
+					o1 := plain[(fi+1)%len(plain)]
+					o2 := plain[(fi+2)%len(plain)]
+					if o1.key != f.key {
+						fs = append(fs, giFld(o1.key, b.good(o1.typ, 0)))
+					}
+					fs = append(fs, giFld(f.key, w))
+					if o2.key != f.key && o2.key != o1.key {
+						fs = append(fs, giFld(o2.key, b.good(o2.typ, 1)))
+					}
+					root := b.rec(reg, fs...)
+					fix := giStep{op: "set", node: int(root.N), key: f.key, v: b.good(f.typ, wi)}
+					var steps []giStep
+					if variant == 0 {
+						steps = []giStep{T, S, T, fix, S, T}
+					} else {
+						steps = []giStep{S, fix, S, S}
+					}
+					gg.addHist(b.graph(root), steps, "fail, repair "+reg+"."+f.name+", convert again")
+				}
+			}
+			// a valid record converted, updated, converted explicitly again
+			b := newGiGb()
+			root := b.rec(reg, giFld(f.key, b.good(f.typ, 0)))
+			upd := giStep{op: "set", node: int(root.N), key: f.key, v: b.good(f.typ, 1)}
+			gg.addHist(b.graph(root), []giStep{T, upd, T}, "convert, update "+reg+"."+f.name+", convert again")
+		}
+	}
+	// the bad field one level down
+	type nest struct{ root, key, child, ckey string }
+	for _, n := range []nest{{"zvnode", "ptr", "zvleaf", "i"}, {"zvnode", "any", "zvleaf", "s"}, {"zvpair", "a", "zvleaf", "f"},
+		{"zvcrew", "cap", "zvtwin", "k"}, {"zvtower", "dp", "zvleaf", "b"}, {"zvnode", "val", "zvleaf", "i64"}} {
+		ct := giTypeOfReg(n.child)
+		var cf giFlat
+		for _, f := range giFlatten(ct) {
+			if f.key == n.ckey {
+				cf = f
+			}
+		}
+		for variant := 0; variant < 2; variant++ {
+			b := newGiGb()
+			child := b.rec(n.child, giFld(n.ckey, b.wrong(cf.typ)[0]()))
+			root := b.rec(n.root, giFld(n.key, child))
+			fix := giStep{op: "set", node: int(child.N), key: n.ckey, v: b.good(cf.typ, 0)}
+			steps := []giStep{T, S, fix, S, T}
+			if variant == 1 {
+				steps = []giStep{S, T, fix, T, S}
+			}
+			gg.addHist(b.graph(root), steps, "fail below "+n.root+"."+n.key+", repair, convert again")
 		}
 	}
 }
@@ -1563,7 +1822,7 @@ func (gg *giGen) random(n int) {
 		pool := map[string][]giVal{}
 		reg := pick(gg.r, giRootTypes)
 		if gg.r.intn(3) == 0 {
-			reg = pick(gg.r, []string{"zvnode", "zvwrap", "zvpair", "snoopy", "zvtower"})
+			reg = pick(gg.r, []string{"zvnode", "zvwrap", "zvpair", "snoopy", "zvtower", "zvcrew"})
 		}
 		root := gg.randRec(b, reg, 1, pool)
 		g := b.graph(root)
